@@ -2,8 +2,9 @@
 from harness.gen_tree import Gen as TreeGen
 
 STEMS = ['a', 'b', 'a1', 'x', 'data', 'img']
-EXTS = ['', '', '.txt', '.txt', '.png', '.gz', '.tar.gz', '.', '.d']
-FILTERS = [[], [], ['.txt'], ['.png', '.txt'], ['.gz'], ['.d'], ['.txt', '.']]
+# (extensions are compared as they are spelled: '.TXT' is not '.txt')
+EXTS = ['', '', '.txt', '.txt', '.png', '.gz', '.tar.gz', '.', '.d', '.TXT', '.Png', '.txT']
+FILTERS = [[], [], ['.txt'], ['.png', '.txt'], ['.gz'], ['.d'], ['.txt', '.'], ['.TXT'], ['.txt', '.Png']]
 # L<n> D<n> U<n> G<n> K<n>: argument OBJECTS (a list, a dict, an object that cannot be copied, a generator, a
 # lock): the factory must be handed those very objects, whatever they are
 ARGS = ['-', '-', 'a', 'a.b', '|k=v', 'a|k=v.j=w', 'L0', 'a.D1', '|opt=U2', 'G3.L0', 'L0|same=L0', '|lock=K4', 'D1|d=D5']
